@@ -165,8 +165,12 @@ func (x *txnCtx) execOp(op *Op) {
 	case "insertkey", "upsertkey":
 		x.keyed(op)
 	case "querykey":
-		at, found := w.model.KeyOf(op.Key)
-		reliable := w.keysStable()
+		var at uint32
+		var found, reliable bool
+		eval := func() { at, found = w.model.KeyOf(op.Key); reliable = w.keysStable() }
+		eval()
+		w.armResume(eval) // instrumented build: the lookup happens after a yield inside the call
+		defer w.armResume(nil)
 		reached := false
 		err := x.txn.QueryKey(op.Key, func(r column.Row) error {
 			reached = true
@@ -186,7 +190,9 @@ func (x *txnCtx) execOp(op *Op) {
 		if found && (w.avoid["put-delete"] && x.wrote(at, "") || w.avoid["double-delete"] && x.deleted(at)) {
 			return
 		}
+		w.armResume(func() { at, found = w.model.KeyOf(op.Key) })
 		err := x.txn.DeleteKey(op.Key)
+		w.armResume(nil)
 		if (err == nil) != found {
 			w.fail(violation("key/delete-result", "DeleteKey(%q) err=%v, key present in committed state: %v", op.Key, err, found))
 		}
@@ -282,10 +288,10 @@ func (x *txnCtx) insert(op *Op, key string) {
 		x.checkFresh(r, inCb)
 		x.writes(r, inCb, op)
 		if op.Fail {
-			// the library frees the offset of a failing insert at once
+			// the library frees the offset of a failing insert when the callback has returned
+			// (the model follows when the call returns: see below)
 			x.noteFail()
 			x.mt.Failed[inCb] = true
-			delete(w.model.Reserved, inCb)
 			return errInsertFail
 		}
 		return nil
@@ -301,6 +307,9 @@ func (x *txnCtx) insert(op *Op, key string) {
 		off = inCb
 	default:
 		off, err = x.txn.Insert(cb)
+	}
+	if called && op.Fail {
+		delete(w.model.Reserved, inCb) // freed by the library before the call returned
 	}
 	if !called {
 		w.fail(violation("insert-result", "%s did not run its callback (err=%v)", op.Kind, err))
@@ -339,10 +348,17 @@ func (x *txnCtx) keyed(op *Op) {
 	if x.dupKey(op.Key) {
 		return
 	}
-	at, exists := w.model.KeyOf(op.Key)
 	// The committed key map is a reliable prediction only while no commit is in flight on
-	// another thread (the library applies the key write somewhere inside the commit).
-	reliable := w.keysStable()
+	// another thread (the library applies the key write somewhere inside the commit). It is
+	// evaluated at the moment the library looks the key up: before the call, and again when
+	// the thread is released from the yield in front of the key table's lock (instrumented
+	// build), whichever is later.
+	var at uint32
+	var exists, reliable bool
+	eval := func() { at, exists = w.model.KeyOf(op.Key); reliable = w.keysStable() }
+	eval()
+	w.armResume(eval)
+	defer w.armResume(nil)
 	before := w.reserves[x.thread]
 	called := false
 	var rowAt uint32
@@ -366,7 +382,6 @@ func (x *txnCtx) keyed(op *Op) {
 			if op.Fail {
 				x.noteFail()
 				x.mt.Failed[rowAt] = true
-				delete(w.model.Reserved, rowAt)
 				return errInsertFail
 			}
 			return nil
@@ -382,6 +397,9 @@ func (x *txnCtx) keyed(op *Op) {
 		err = x.txn.InsertKey(op.Key, cb)
 	} else {
 		err = x.txn.UpsertKey(op.Key, cb)
+	}
+	if inserted && op.Fail {
+		delete(w.model.Reserved, rowAt) // freed by the library before the call returned
 	}
 	if inserted {
 		// the library queues the key write after the callback, whatever it returned
@@ -418,6 +436,13 @@ func (w *World) keysStable() bool {
 			return false
 		}
 	}
+	// the key table also changes before the model does: row deletes reach the key column
+	// right after the latch is taken
+	for tid, m := range w.conc.holding {
+		if tid != w.tid() && len(m) > 0 {
+			return false
+		}
+	}
 	return true
 }
 
@@ -447,7 +472,20 @@ func (x *txnCtx) inRow(r column.Row, off uint32, op *Op) {
 			}
 		}
 	}
+	before := len(x.mt.Ops)
 	x.writes(r, off, op)
+	if op.Ghost && x.w.ghostLive {
+		// a store into the unmodelled column, only next to a modelled store to the same row of
+		// this very operation (so the block counts as changed whatever happens to the column)
+		for _, o := range x.mt.Ops[before:] {
+			if o.Off == off && (o.Kind == mPut || o.Kind == mMerge) && !o.Dead {
+				r.SetInt64("ghost", int64(off))
+				x.mt.ghost = true
+				x.w.stats.probe("store-into-unmodelled-column")
+				break
+			}
+		}
+	}
 	if len(op.Writes) > 0 {
 		// own reads keep returning the committed values
 		x.checkRow(r, off, false)
@@ -651,17 +689,22 @@ func (x *txnCtx) avoidWrite(off uint32, col ColSpec, kind mopKind) (mopKind, boo
 		}
 		w.noteTrigger("put-delete")
 	}
-	if w.avoid["len-merge-put"] && (col.Merge == "concat" || col.Merge == "sum") {
+	if col.Merge == "concat" || col.Merge == "sum" {
+		afterMerge := false
 		for _, o := range x.mt.Ops {
-			if o.Off == off && o.Col == col.Name && o.Kind == mMerge {
+			afterMerge = afterMerge || o.Off == off && o.Col == col.Name && o.Kind == mMerge
+		}
+		if afterMerge {
+			if w.avoid["len-merge-put"] {
 				return kind, false // a store after a (possibly length-changing) merge of the same row and column
 			}
+			w.noteTrigger("len-merge-put")
 		}
-	} else if col.Merge == "concat" || col.Merge == "sum" {
-		for _, o := range x.mt.Ops {
-			if o.Off == off && o.Col == col.Name && o.Kind == mMerge {
-				w.noteTrigger("len-merge-put")
+		if x.splitRun(off, col.Name) {
+			if w.avoid["len-merge-split"] {
+				return kind, false
 			}
+			w.noteTrigger("len-merge-split")
 		}
 	}
 	if kind == mMerge {
@@ -673,6 +716,46 @@ func (x *txnCtx) avoidWrite(off uint32, col ColSpec, kind mopKind) (mopKind, boo
 		}
 	}
 	return kind, true
+}
+
+// splitRun reports whether queueing one more store to (off, col) produces the history of
+// the known finding "len-merge-split": the column's buffer holds a merge M of some row r of
+// off's block b, a later store to the same row r (possibly this one), and between M and the
+// end of the buffer a store of the column into another block. The buffer then ends in a run
+// of block b that is not M's run; the put the library appends for a length-changing merge
+// result lands at the end of that later run and is applied again, after the later store.
+// (When the buffer ends in M's own run or in a run of another block the appended put is not
+// visited by the pass that applies the column, and the stored value is right.) Operations of
+// failing inserts stay in the library's buffer, so dead operations count.
+func (x *txnCtx) splitRun(off uint32, col string) bool {
+	b := off >> 14
+	type ms struct{ later, other bool } // per merged row of block b: a later store to it / a store into another block since
+	merged := map[uint32]*ms{}
+	note := func(o uint32) {
+		for r, m := range merged {
+			if o>>14 != b {
+				m.other = true
+			} else if r == o {
+				m.later = true
+			}
+		}
+	}
+	for _, o := range x.mt.Ops {
+		if o.Col != col || (o.Kind != mPut && o.Kind != mMerge) {
+			continue
+		}
+		note(o.Off)
+		if o.Kind == mMerge && o.Off>>14 == b && merged[o.Off] == nil {
+			merged[o.Off] = &ms{}
+		}
+	}
+	note(off)
+	for _, m := range merged {
+		if m.later && m.other {
+			return true
+		}
+	}
+	return false
 }
 
 // noteFail records the trigger "failing insert inside a transaction that commits".
